@@ -1053,6 +1053,8 @@ def call_ext(interp, dotted: str, args: List[V], kwargs: Dict[str, V], node, cc)
         if isinstance(dec, Num) and dec.p.is_const():
             k = int(dec.p.as_const())
             return _map_elem(interp, args[0], lambda p: Poly.app("round", p, Poly.const(k)), "round")
+        if isinstance(args[0], Term):
+            return Term("round", [args[0]], {"decimals": Const("computed")})   # quantisation with a computed number of decimals: still a rounding step
         return Top("round with non-constant decimals")
     if d == "numpy.where":
         if len(args) == 3:
@@ -1587,6 +1589,17 @@ def call_method(interp, recv: V, name: str, args, kwargs, node, cc) -> Optional[
     if isinstance(recv, Const) and isinstance(recv.v, str):
         return str_method(interp, recv, name, args, kwargs)
     if isinstance(recv, Term):
+        if recv.op == "Rotation.from_quat" and name == "as_quat" and recv.args:
+            # scipy: as_quat() returns the stored (normalised) quaternions; canonical=True flips signs so that w >= 0
+            can = kwargs.get("canonical", args[0] if args else None)
+            if can is None or (isinstance(can, Const) and can.v is False):
+                return recv.args[0]
+            a0 = recv.args[0]
+            if isinstance(a0, ObjV) and a0.ext == "ndarray":
+                a0 = ndarray_value(interp, a0)
+            if isinstance(a0, Grid):
+                return _map_elem(interp, a0, lambda p: Poly.app("canonical_sign", p), "canonical_quat")
+            return Term("canonical_quat", [recv.args[0]])
         if name in ("squeeze", "copy", "flatten", "ravel", "astype", "tolist", "toarray") and recv.op not in ("sparse",):
             if name in ("squeeze", "copy", "astype"):
                 return recv
